@@ -173,6 +173,21 @@ def rtInRangeQ (ft : FT) (ity : IType) (isRound : Bool) (v : Dy) : Bool :=
   else decide (t ≤ ity.hi - 2) &&
     (!(v < (0 : Dy)) || (Dy.ofInt (-1) < v && (isRound || decide ((ity.bits : Int) + ft.ew ≤ ft.prec))))
 
+/-- `trunc` to an unsigned type of an argument in (-1,0) that is not 0 within epsilon: the documented result is the integer
+    -1 (not a value of the type) when the direction is downward or the argument is equal to -1 within epsilon.  What the code
+    returns there is not compared (the harness evaluates the same predicate, in the same arithmetic, and prints `unrep`). -/
+def truncUnrep {K : Type} [Zero K] [Neg K] [Sub K] [Mul K] [LT K] [LE K] [DecidableLT K] [DecidableLE K] [IntCast K]
+    (ity : IType) (s : Style) (r : RStyle) (x e : K) : Bool :=
+  !ity.signed && decide (x < ((0 : Int) : K)) && !(eqS s x ((0 : Int) : K) e) &&
+    (r == .downward || r == .towardInf || eqS s (((-1 : Int) : Int) : K) x e)
+
+/-- … or the largest value of the type is not a finite number of the (tiny) format -/
+def truncUnrepFP (ity : IType) (s : Style) (r : RStyle) (x e : FP f) : Bool :=
+  truncUnrep ity s r x e ||
+    (!ity.signed && decide (x < ((0 : Int) : FP f)) && !(eqS s x ((0 : Int) : FP f) e) && !(((ity.hi : Int) : FP f).isFin))
+
+def showTrunc (unrep : Bool) (v : Int) : String := if unrep then "unrep" else toString v
+
 def mfFinite (c : Nat) : Bool := c < 256 && c / 8 % 16 != 15
 
 def handle (line : String) : String :=
@@ -224,7 +239,7 @@ def handle (line : String) : String :=
         if !(mfFinite v) then "skip" else
         let v := MF.decode v
         if !(rtInRange ity v) then "skip" else
-        s!"round={roundM ity s r FP.trunc v e} trunc={truncM ity s r FP.trunc v e}"
+        s!"round={roundM ity s r FP.trunc v e} trunc={showTrunc (truncUnrepFP ity s r v e) (truncM ity s r FP.trunc v e)}"
       else if fmt == "e5m2" then
         match e.toNat? with
         | none => "bad-op"
@@ -233,7 +248,7 @@ def handle (line : String) : String :=
         if !(fin v && fin e && e < 128) then "skip" else
         let v := MFB.decode v; let e := MFB.decode e
         if !(rtInRange ity v) then "skip" else
-        s!"round={roundM ity s r FP.trunc v e} trunc={truncM ity s r FP.trunc v e}"
+        s!"round={roundM ity s r FP.trunc v e} trunc={showTrunc (truncUnrepFP ity s r v e) (truncM ity s r FP.trunc v e)}"
       else "bad-op"
     | _, _, _, _ => "bad-op"
   | [op, t, it, st, rs, v, e] =>
@@ -243,7 +258,8 @@ def handle (line : String) : String :=
         match parseFP? f v, parseEpsFP? f t s e with
         | some v, some e =>
           if !(rtInRange ity v) then "skip" else
-          if op == "fround" then toString (roundM ity s r FP.trunc v e) else toString (truncM ity s r FP.trunc v e)
+          if op == "fround" then toString (roundM ity s r FP.trunc v e)
+          else showTrunc (truncUnrep ity s r v e) (truncM ity s r FP.trunc v e)
         | _, _ => "bad-op"
       | _, _, _, _ => "bad-op"
     else
@@ -253,7 +269,7 @@ def handle (line : String) : String :=
       if !(okVal ft v && okEps ft e) then "skip" else
       if !(rtInRangeQ ft ity (op == "round") v) then "skip" else
       let v := v.toRat; let e := e.toRat
-      if op == "round" then toString (roundRatM ity s r v e) else toString (truncRatM ity s r v e)
+      if op == "round" then toString (roundRatM ity s r v e) else showTrunc (truncUnrep ity s r v e) (truncRatM ity s r v e)
     | _, _, _, _, _, _ => "bad-op"
   | ["laws", t, st, _, _, _] =>
     match parseFT? t, parseStyle? st with
